@@ -11,16 +11,16 @@ func init() {
 	register(&Property{
 		ID:        "C38",
 		Title:     "Relabeling follows the documented actions",
-		Technique: "enum exhaustiveness of relabel.Action across parsing, validation and execution (go/types constants vs switch case lists); go/cfg all-paths rules for labels.Builder.Set/Del (a set is always recorded, a delete always shadows the base) under the three label build variants; order rule for ProcessBuilder; anchoring rule for NewRegexp",
+		Technique: "enum exhaustiveness of relabel.Action across parsing, validation and execution (go/types constants vs switch case lists); go/cfg all-paths rules for labels.Builder.Set/Del (a set is always recorded, a delete always shadows the base) under the three label build variants; order rule for ProcessBuilder; anchoring rule for NewRegexp; per-arm clause rules for relabel() (tested value, polarity, written label and its source, by resolved callee and operand)",
 		DesignRef: "DESIGN.md §5 C38",
-		Level: "Decides that every relabel action constant is accepted by the YAML parser and executed by relabel() (whose default arm panics), that rules are applied in order and processing stops at the first rule that drops the set, that the keep/drop family returns false only from its own arms, that regular expressions are compiled fully anchored, " +
+		Level: "Decides that every relabel action constant is accepted by the YAML parser and executed by relabel() (whose default arm panics), that rules are applied in order and processing stops at the first rule that drops the set, that the keep/drop family returns false only from its own arms, that regular expressions are compiled fully anchored, that each of the eleven action arms tests the joined source value (or the label name) with the documented polarity and writes the documented label from the documented source (20 clauses, see DESIGN), " +
 			"and that the label builder records every non-empty Set in its override list and every Del in its deletion list on all paths (so a label deleted by one rule and set again by a later one is present, whatever its value).",
 		Note:           "Trusted: go/packages, go/types, go/cfg; rule tables in checker/c38.go; builder rules also run under -tags slicelabels / dedupelabels in the thorough tier.",
 		Covers:         "relabel.Action tables (UnmarshalYAML, relabel), ProcessBuilder, NewRegexp, labels.Builder.Set/Del/Get/Keep.",
-		NotCover:       "the string results of replace / hashmod / labelmap (regex expansion, hashing), sortedness of the result.",
+		NotCover:       "the regex engine, template expansion and hashing themselves (library code), sortedness of the result.",
 		Run:            runC38,
 		Tags:           []string{"slicelabels", "dedupelabels"},
-		MinObligations: 16,
+		MinObligations: 34,
 	})
 }
 
@@ -94,6 +94,7 @@ func runC38(c *eng.Ctx) {
 		}
 		return false
 	}, 4)
+	runC38Arms(c)
 	v := c.Fn("model/relabel:Config.Validate")
 	v.Has("R1", p.FieldUse("model/relabel:Config.Action"), 3)
 	// ---- R2 order, early stop, anchoring ----
